@@ -177,6 +177,11 @@ impl WeightHistoryMap {
     { unimplemented!() }
 }
 pub open spec fn has_weight(s: Storage, a: Seq<char>, lp: Seq<char>, e: u64) -> bool { s.weights@.dom().contains((a, lp, e)) }
+/// (definition) keys of other (address, lp) pairs are untouched
+pub open spec fn other_weights_same(s0: Storage, s1: Storage, a: Seq<char>, lp: Seq<char>) -> bool {
+    forall|k: (Seq<char>, Seq<char>, u64)| (k.0 != a || k.1 != lp) ==> (#[trigger] s1.weights@.dom().contains(k) == s0.weights@.dom().contains(k))
+        && (s0.weights@.dom().contains(k) ==> s1.weights@[k] == s0.weights@[k])
+}
 /// state.rs range getters over LP_WEIGHT_HISTORY.prefix((addr, lp)) (ascending / descending, first item)
 #[verifier::external_body]
 pub fn get_earliest_address_lp_weight(s: &Storage, address: &Addr, lp_denom: &Str) -> (r: Result<(u64, Uint128), ContractError>)
